@@ -396,9 +396,12 @@ def classify(case, info):
         return p["region"] is None or all(tuple(r) == (None, None, None) for r in p["region"])
 
     def shard_rechunk(p):
-        # `_store_array` stores `source.rechunk(target.shards)` - a new array derived from the source
+        # `_store_array` stores `source.rechunk(target.shards)` - a new array derived from the source, unless the
+        # (normalised) chunks are already those, in which case `rechunk` returns the source itself
         t = p["target"]
-        return t["kind"] == "array" and bool(t.get("shards")) and list(t["shards"]) != info["src_chunks"][p["src"]]
+        if t["kind"] != "array" or not t.get("shards"):
+            return False
+        return [min(sh, n) for sh, n in zip(t["shards"], case["shape"])] != info["src_chunks"][p["src"]]
 
     # pairs that re-target their (lazy) source in place
     moves = [(k, sid(p)) for k, p in enumerate(pairs) if lazy[p["src"]] and noregion(p) and not shard_rechunk(p)]
